@@ -176,6 +176,9 @@ type stlDoc struct {
 	// SpaceAround: blanks written around runs (not part of what the file denotes)
 	SpaceAround bool `json:"space_around"`
 	TrailingUD  int  `json:"trailing_user_data"`
+	// TCS0 (read direction): the GSI time code status byte says "not intended for use" ('0'); readers take the
+	// timecodes as they are all the same
+	TCS0 bool `json:"tcs0,omitempty"`
 }
 
 func padField(s string, n int) []byte {
@@ -296,6 +299,9 @@ func renderSTL(d stlDoc) ([]byte, bool) {
 		nBlocks += 1 + c.UserDataBefore
 	}
 	out := renderGSI(d.GSI, nBlocks, len(d.Cues))
+	if d.TCS0 {
+		out[255] = '0'
+	}
 	ud := func() {
 		blk := make([]byte, 128)
 		blk[3] = 0xfe
@@ -835,6 +841,7 @@ func genSTLDoc(t *rapid.T, avoidKnown bool) stlDoc {
 
 // addBlankRowsAndComments gives some cues an empty row (one more line-break code) or the comment flag (read direction only).
 func addBlankRowsAndComments(t *rapid.T, d *stlDoc) {
+	d.TCS0 = rapid.IntRange(0, 3).Draw(t, "tcs0") == 0
 	for ci := range d.Cues {
 		c := &d.Cues[ci]
 		if len(c.Rows) == 1 && len(c.Rows[0]) == 1 && len(c.Rows[0][0].Text) >= 100 {
